@@ -868,3 +868,17 @@ Proof.
   - intros it Hin Hr Hc. apply (retry_after_context_end c h e Henv it Hin).
     unfold lost_race. rewrite Hc, Hr. reflexivity.
 Qed.
+
+(** * 7. what the Logger is given *)
+(** the errors handed to Logger.Error are, in order, the errors of the failed re-invocations
+    1..f (each call gets the error of the attempt that just failed, never an earlier one) *)
+Lemma retry_log_errs c h e : has_log c = true ->
+  log_errs h (r_trace (retry c h e))
+  = map (fun k => snd (h k)) (seq 1 (failed_retries h (r_trace (retry c h e)))).
+Proof.
+  intros HL. destruct (retry_hook_sequence c h e) as [Hn [Hf [_ [Hg _]]]]. cbn zeta in *.
+  unfold log_errs. rewrite Hg, HL, !map_map. cbn [fst note_of].
+  set (f := failed_retries h (r_trace (retry c h e))) in *.
+  rewrite <- (firstn_seq' f 1 (length (r_waits (retry c h e))) Hf), <- Hn, firstn_map', map_map.
+  apply map_ext. intros it. rewrite Nat2Z.id. reflexivity.
+Qed.
